@@ -34,7 +34,7 @@ fn image(w: &World, live: &Path, img: &Path) -> Value {
     out
 }
 
-pub fn gen_history(r: &mut Rng, t: &DocTable, len: usize) -> Vec<Value> {
+pub fn gen_history(r: &mut Rng, t: &DocTable, len: usize, focus_remove: bool, tail_remove: bool) -> Vec<Value> {
     // start with documents that can be written, then mostly writes (pruning and non-pruning), with
     // commits (flush / snapshot read) and settings interleaved
     let real = t.real();
@@ -48,6 +48,16 @@ pub fn gen_history(r: &mut Rng, t: &DocTable, len: usize) -> Vec<Value> {
         let d = real[r.below(2)];
         let x = r.below(100);
         let ts = 1 + r.below(5) as u64;
+        if (90..94).contains(&x) || (focus_remove && (90..97).contains(&x)) {
+            // a removal that can succeed: the document is closed first; sometimes it is re-created and written again
+            ops.push(json!({"op":"close","d":d}));
+            ops.push(json!({"op":"remove","d":d}));
+            if r.chance(1, 2) {
+                ops.push(json!({"op":"import","d":d,"kind":"write"}));
+                ops.push(json!({"op":"open","d":d}));
+            }
+            continue;
+        }
         ops.push(if x < 40 {
             json!({"op":"local","d":d,"a":1 + r.below(2),"k":key_json(keys[r.below(keys.len())]),"h":*r.pick(&[1i64,2]),"now":ts})
         } else if x < 52 {
@@ -72,22 +82,37 @@ pub fn gen_history(r: &mut Rng, t: &DocTable, len: usize) -> Vec<Value> {
         } else if x < 90 {
             json!({"op":"policy","d":d,"kind":"only","filters":[["prefix",[0]]]})
         } else if x < 94 {
-            json!({"op":"remove","d":d})
+            json!({"op":"remove","d":d})     // (unreachable: handled above; a bare removal of an open document is refused)
         } else if x < 97 {
             json!({"op":"close","d":d})
         } else {
             json!({"op":"open","d":d})
         });
     }
+    if tail_remove {
+        // every history of the removal drive (and every third history of C06's own drive) ends with the removal of a document that holds entries, heads, a peer and a policy
+        let d = real[r.below(2)];
+        ops.push(json!({"op":"import","d":d,"kind":"write"}));
+        ops.push(json!({"op":"open","d":d}));
+        for i in 0..1 + r.below(3) {
+            ops.push(json!({"op":"local","d":d,"a":1 + r.below(2),"k":key_json(keys[r.below(keys.len())]),"h":1 + (i as i64 % 2),"now":6 + i as u64}));
+        }
+        ops.push(json!({"op":"peer","d":d,"p":1 + r.below(3)}));
+        if r.chance(1, 2) {
+            ops.push(json!({"op":"flush"}));
+        }
+        ops.push(json!({"op":"close","d":d}));
+        ops.push(json!({"op":"remove","d":d}));
+    }
     ops
 }
 
-pub fn run(w: &World, seed: u64, rng: &mut Rng, schedules: Vec<Value>, n: usize, dir: &Path, trace: &mut Trace, sum: &mut Summary) {
+pub fn run(w: &World, seed: u64, rng: &mut Rng, schedules: Vec<Value>, n: usize, focus_remove: bool, dir: &Path, trace: &mut Trace, sum: &mut Summary) {
     let rt = tokio::runtime::Builder::new_current_thread().enable_all().build().unwrap();
     let t = DocTable::new(w);
     let mut hists: Vec<Vec<Value>> = schedules.into_iter().map(|s| s["ops"].as_array().cloned().unwrap_or_default()).collect();
     for i in 0..n {
-        hists.push(gen_history(rng, &t, if i % 2 == 0 { 5 } else { 10 }));
+        hists.push(gen_history(rng, &t, if i % 2 == 0 { 5 } else { 10 }, focus_remove, focus_remove || i % 3 == 2));
     }
     let live_path = dir.join("storetx-live.redb");
     let img_path = dir.join("storetx-img.redb");
@@ -116,8 +141,12 @@ pub fn run(w: &World, seed: u64, rng: &mut Rng, schedules: Vec<Value>, n: usize,
         }
         let nops = counts.len();
         // ---- crash runs: (call i, access n); (0,0) = no forced aging
-        let mut placements: Vec<(usize, u64)> = vec![(0, 0)];
+        // (focus_remove: only the placements inside removal calls, and only the image right after that call - C16's drive)
+        let mut placements: Vec<(usize, u64)> = if focus_remove { vec![] } else { vec![(0, 0)] };
         for (i, c) in counts.iter().enumerate() {
+            if focus_remove && kinds[i] != "Remove" {
+                continue;
+            }
             for a in 1..=*c {
                 placements.push((i + 1, a));
             }
@@ -146,7 +175,7 @@ pub fn run(w: &World, seed: u64, rng: &mut Rng, schedules: Vec<Value>, n: usize,
                 };
                 j += 1;
                 // crash images from the call with the forced commit on (earlier ones equal the (0,0) run)
-                if pi == 0 || j >= pi {
+                if (pi == 0 || j >= pi) && (!focus_remove || j == pi) {
                     let img = image(w, &live_path, &img_path);
                     trace.emit(json!({"ev":"Img","i":j,"kind":ev["ev"],"res":ev["res"],"opened":img["opened"],
                                       "docs":img["docs"],"hashes":img["hashes"]}));
